@@ -41,7 +41,7 @@ AnswerMatches ==
     /\ (Has("computed") /\ "computes" \in DOMAIN last') => (last'.computes = "no" => ~Ev.computed)
 
 TrFit == IsEvent("fit") /\ (Fit(Ev.arg) \/ Dev_FitAppends(Ev.arg) \/ Dev_RefitKeepsSorted(Ev.arg)) /\ ModelMatches /\ AnswerMatches
-TrTransform == IsEvent("transform") /\ (Transform(Ev.arg) \/ Dev_TransformLabelsFromFit(Ev.arg)) /\ ModelMatches /\ AnswerMatches
+TrTransform == IsEvent("transform") /\ (Transform(Ev.arg, Ev.wrapped) \/ Dev_TransformLabelsFromFit(Ev.arg)) /\ ModelMatches /\ AnswerMatches
 TrTransformRefused == IsEvent("transformRefused") /\ TransformRefused(Ev.arg) /\ Ev.refused
 TrInverse == IsEvent("inverse") /\ Inverse /\ ModelMatches /\ AnswerMatches
 TrQuery == IsEvent("query") /\ (Query \/ Dev_QueryReadsTransformCoords) /\ ModelMatches /\ AnswerMatches
